@@ -70,12 +70,14 @@ def native_replay(h, test_src, work, log):
         f.write("\n" + test_src + "\n")
     outs = {}
     for prof in ("dev", "release"):
-        cmd = ["cargo", "kani", "playback", "-Z", "concrete-playback", "--lib"]
-        if prof == "release":
-            cmd.append("--release")
-        cmd += ["--", tname]
+        cmd = ["cargo", "kani", "playback", "-Z", "concrete-playback", "--lib", "--", tname]
         env = dict(scratch.ENV)
         env["CARGO_TARGET_DIR"] = os.path.join(d, "target_" + prof)
+        if prof == "release":
+            # `cargo kani playback` has no --release: the release profile's semantics (optimised,
+            # no overflow checks, no debug assertions) are imposed on the dev profile instead
+            env.update({"CARGO_PROFILE_DEV_OPT_LEVEL": "3", "CARGO_PROFILE_DEV_OVERFLOW_CHECKS": "false",
+                        "CARGO_PROFILE_DEV_DEBUG_ASSERTIONS": "false"})
         p = subprocess.run(cmd, cwd=root, env=env, stdout=subprocess.PIPE, stderr=subprocess.STDOUT,
                            text=True, timeout=1800)
         out = p.stdout
